@@ -79,6 +79,20 @@ CHECKS = {
         "assumptions": ["sync.Pool is modelled as a LIFO stack (a single-P process without GC)"],
         "runs": parruns(["VxC08_Invariant2", "VxC08_DepthRestored", "VxC08_Indep_Start3", "VxC08_Indep_Select2", "VxC08_Pool"], ["VxC08_Invariant", "VxC08_DepthRestored", "VxC08_Indep_Start4", "VxC08_Indep_Select3", "VxC08_Pool"], ["C08.inv_depth", "C08.same_tree", "C08.same_location"]),
     },
+    "C09": {
+        "bounds": {"quick": "cleanliness: every Get*/Put* pair of pkg/sql/ast/pool.go (generated from the current source), released directly and through the tree-release path, with (a) every field populated and (b) each single field populated in turn (type-directed, symbolic contents; interface fields hold a shared sentinel node); aliasing: every history of <= 3 steps over {parse one of 7 texts and hold, parse and release, release a held tree} with all held trees frozen; tokenizer: two consecutive Tokenize calls (same and pooled instance) over all inputs <= 3 bytes of the comment alphabet with the first call's tokens and comments frozen",
+                   "thorough": "histories of <= 4 steps; tokenizer inputs <= 4 bytes"},
+        "outside": "goroutine interleavings (C10); extracted lists and scan results (fresh slices per call by construction; not asserted); Fill depth 2",
+        "assumptions": ["sync.Pool is a LIFO stack: Get returns the most recently Put object (realisable on a single P without GC), PoolGC empties the pools"],
+        "runs": [
+            {"pkg": "pkg/sql/ast", "harness": "VxC09_Clean", "generate": "c09_pools", "expect_asserts": ["C09.clean"]},
+            {"pkg": "pkg/gosqlx", "harness": "VxC09_History3", "tiers": ["quick"], "args": {"replace": "context.WithTimeout=VxTimeoutCtx"}},
+            {"pkg": "pkg/gosqlx", "harness": "VxC09_History4", "tiers": ["thorough"], "args": {"replace": "context.WithTimeout=VxTimeoutCtx"}},
+            {"pkg": TOK, "harness": "VxC09_TokAlias3", "tiers": ["quick"]},
+            {"pkg": TOK, "harness": "VxC09_TokAliasPool3", "tiers": ["quick", "thorough"]},
+            {"pkg": TOK, "harness": "VxC09_TokAlias4", "tiers": ["thorough"]},
+        ],
+    },
     "C11": {
         "bounds": {"quick": "Parser.ParseContext under a context that turns done at its k-th poll (k symbolic 0..63, both Canceled and DeadlineExceeded, arbitrary start depth 0..49): a 70-token nested statement (CTE, IN list, CASE, nested function calls, JOIN ON, BETWEEN, UNION, EXISTS sub-query), an INSERT ... RETURNING with function calls, and every <= 2-token continuation of SELECT / SELECT a FROM t WHERE over the 45-row expression table",
                    "thorough": "<= 3-token continuations"},
